@@ -19,13 +19,16 @@ def main():
         key = args[args.index("-k") + 1]
     mutants = json.load(open(os.path.join(HERE, "mutants.json")))
     ok = bad = 0
+    # one snapshot of /repo for the whole run, so that the corpus is judged against one tree
+    snap = tempfile.mkdtemp(prefix="pvcsnap_")
+    sh(f"rsync -a --exclude .git /repo/ {snap}/repo/")
     for m in mutants:
         if key and key not in m["id"]:
             continue
         tmp = tempfile.mkdtemp(prefix="pvcmut_")
         try:
             repo = os.path.join(tmp, "repo")
-            sh(f"rsync -a --exclude .git /repo/ {repo}/")
+            sh(f"rsync -a {snap}/repo/ {repo}/")
             path = os.path.join(repo, m["file"])
             src = open(path).read()
             if m["old"] not in src:
@@ -65,6 +68,7 @@ def main():
         finally:
             shutil.rmtree(tmp, ignore_errors=True)
             pass
+    shutil.rmtree(snap, ignore_errors=True)
     print(f"selftest: {ok} caught, {bad} not")
     sys.exit(0 if bad == 0 else 1)
 
